@@ -171,6 +171,10 @@ class Ctx:
         """(re)compile Props/<pid>.v capturing Print Assumptions; fills self.obligations"""
         vfile = vfile or f"Props/{self.pid}.v"
         self.checker_cmd = f"cd {COQ} && make {vfile}o && coqc -Q . Allfed {vfile}  (Coq 8.16.1 kernel, full .vo build)"
+        if not os.path.exists(os.path.join(COQ, vfile)):
+            self.proof_ok = False
+            self.broken.append(f"{vfile} does not exist")
+            return False
         names = theorem_names(os.path.join(COQ, vfile))
         ok, bad, out = coq_make([vfile + "o"], timeout)
         if not ok:
@@ -221,12 +225,20 @@ class Ctx:
         Each file checks dec_selftest first."""
         if not cases:
             return []
+        specs = [(defs, cases[k:k + per_file]) for k in range(0, len(cases), per_file)]
+        out = self.coq_codes_files(name, imports, specs, timeout=timeout)
+        return [c for grp in out for c in grp]
+
+    def coq_codes_files(self, name, imports, specs, timeout=1200):
+        """specs: list of (defs_text, [terms of type nat]); one case file per spec, evaluated in parallel.
+        Returns a list (per spec) of lists of ints."""
+        if not specs:
+            return []
         files = []
-        for k in range(0, len(cases), per_file):
-            chunk = cases[k:k + per_file]
-            fn = os.path.join(self.work, f"{name}_{k // per_file}.v")
+        for k, (defs, chunk) in enumerate(specs):
+            fn = os.path.join(self.work, f"{name}_{k}.v")
             with open(fn, "w") as f:
-                f.write("From Coq Require Import QArith List String Uint63 Bool.\n")
+                f.write("From Coq Require Import QArith List String Uint63 Bool ZArith.\n")
                 f.write("From Allfed Require Import Base.Dec.\n")
                 f.write(imports + "\nImport ListNotations.\nOpen Scope Q_scope.\nOpen Scope string_scope.\n")
                 f.write(defs + "\n")
@@ -234,16 +246,17 @@ class Ctx:
                     f.write(f"Definition case_{i} : nat := {c}.\n")
                 f.write("Definition codes : list nat := [" + "; ".join(f"case_{i}" for i in range(len(chunk))) + "].\n")
                 f.write("Eval vm_compute in (dec_selftest, codes).\n")
-            files.append(fn)
+            files.append((fn, len(chunk)))
 
-        def one(fn):
+        def one(spec):
+            fn, n = spec
             p = run(["coqc", "-Q", COQ, "Allfed", "-w", "-all", fn], cwd=self.work, timeout=timeout)
-            return fn, p
+            return fn, n, p
 
         res = []
         with ThreadPoolExecutor(max_workers=NCPU) as ex:
             outs = list(ex.map(one, files))
-        for fn, p in outs:
+        for fn, n, p in outs:
             if p.returncode != 0:
                 raise CoqEvalFailed(fn, (p.stdout + p.stderr)[-3000:])
             txt = p.stdout.replace("\n", " ")
@@ -252,10 +265,10 @@ class Ctx:
                 raise CoqEvalFailed(fn, "unparsable output: " + txt[-500:])
             if m.group(1) != "true":
                 raise CoqEvalFailed(fn, "decode self-test failed")
-            body = m.group(2).strip()
-            res.extend(int(t) for t in re.findall(r"\d+", body))
-        if len(res) != len(cases):
-            raise CoqEvalFailed(name, f"{len(res)} results for {len(cases)} cases")
+            codes = [int(t) for t in re.findall(r"\d+", m.group(2))]
+            if len(codes) != n:
+                raise CoqEvalFailed(fn, f"{len(codes)} results for {n} cases")
+            res.append(codes)
         return res
 
     # ---- reporting
@@ -266,6 +279,10 @@ class Ctx:
                 if f not in self.known_seen:
                     self.known_seen.append(f)
                 return "known"
+        for v in self.violations:
+            if v["key"] == key:          # one replay per distinct key; count the repeats
+                v["count"] = v.get("count", 1) + 1
+                return "new"
         self.violations.append({"key": key, "what": what, "replay": replay, "no_input": no_input})
         return "new"
 
